@@ -165,14 +165,16 @@ theorem getBlk_of_eq {d : Disk} {k : Key} {x : Block} (h : d k = (some x).map Va
   simp [getBlk, h]
 
 theorem exec_cinv (W : Nat) (fx : Fixes) (n : Node) (op : Op) (ft : Fault)
-    (hfresh : ∀ b, op = .store b → Fresh n.disk b) (hp : ∀ e, op ≠ .prune e)
+    (hfresh : ∀ b, op = .store b → Extends n.disk b → Fresh n.disk b) (hp : ∀ e, op ≠ .prune e)
     (hi : CInv n) : CInv (exec W fx n op ft).1 := by
   obtain ⟨c, hwf, hc⟩ := hi
   unfold CInv
   have h0 := disk0_chainKeys W fx n op hp
   have hc0 : Coh c (plan W fx n op).disk0 := coh_of_eq_chainKeys hc h0
-  rcases op_atomic_lemma W fx n op ft hp with hd | hd
+  rcases op_atomic_lemma W fx n op ft hp with hd | hd | hd
   · exact ⟨c, hwf, by rw [hd]; exact hc0⟩
+  rotate_left
+  · exact ⟨c, hwf, by rw [hd]; exact hc⟩
   · rw [hd, exec_none_disk]
     cases plan_shape W fx n op hp with
     | none h => rw [h]; exact ⟨c, hwf, hc0⟩
@@ -189,7 +191,7 @@ theorem exec_cinv (W : Nat) (fx : Fixes) (n : Node) (op : Op) (ft : Fault)
       have hen := expectedNext_of_coh hc
       rw [he] at hen
       have hnb : NextBlock c (plan W fx n (.store b)).disk0 b := by
-        refine ⟨(Prod.mk.inj hen).1, (Prod.mk.inj hen).2, ?_, fresh_congr h0 (hfresh b rfl)⟩
+        refine ⟨(Prod.mk.inj hen).1, (Prod.mk.inj hen).2, ?_, fresh_congr h0 (hfresh b rfl he)⟩
         rw [← hs, hc.state]
       exact ⟨c ++ [b], wf_append hwf hc0 hnb, coh_append hc0 hnb ha⟩
     | revert h hb tb su ws' hop hcm ha hh hsu hhb htb =>
